@@ -165,7 +165,7 @@ def run_shards(modname, funcname, shard_kwargs, procs=None):
 
 
 def write_replay(prop, sig, detail, case):
-    d = os.path.join(env.VERIF, 'replays')
+    d = os.path.join(env.OUT, 'replays')
     os.makedirs(d, exist_ok=True)
     name = '%s-%s.json' % (prop, digest([sig, case]))
     path = os.path.join(d, name)
@@ -199,7 +199,7 @@ def write_evidence(prop, level, tier, seed, stats, rule, assumptions, wall_s, ex
         'wall_s': round(wall_s, 2),
         'violations': len(stats.violations),
     }
-    d = os.path.join(env.VERIF, 'evidence')
+    d = os.path.join(env.OUT, 'evidence')
     os.makedirs(d, exist_ok=True)
     tmp = os.path.join(d, '.%s.json.tmp' % prop)
     with open(tmp, 'w') as f:
